@@ -373,3 +373,4 @@ package posix
 //@   ensures {C20} [an-error-answer-with-a-result-carries-its-time] err != nil && ret0 != nil ==> ret0.LastModified != nil
 //@ func (*Posix) GetObject
 //@   ensures {C20} [an-error-answer-with-a-result-carries-its-time] err != nil && ret0 != nil ==> ret0.LastModified != nil
+
